@@ -86,6 +86,23 @@ def run(tier):
     parts = ["".join(scripts[i::nproc]) for i in range(nproc)]
     evs = [e for part in common.run_driver_parallel(parts, "plain", timeout=3000) for e in part]
     bycase = common.by_case(evs)
+    # the same runs under ASan/UBSan (another allocator, poisoned freed/shrunk memory) for the configurations with
+    # the less common overall checksum types and a sample of the rest: behaviour must not depend on the allocator
+    common.build("asan")
+    sel = [i for i, m in enumerate(meta) if m[2]["full"] in (2, 3) or i % 6 == 0]
+    ascripts = []
+    for i in sel:
+        cid = meta[i][0]
+        s_ = scripts[i].replace("case %s " % cid, "case %sA " % cid).replace(meta[i][6], meta[i][6] + ".asan")
+        for sk in meta[i][7]:
+            s_ = s_.replace(sk, sk + ".asan")
+        ascripts.append(s_)
+        m = meta[i]
+        meta.append((cid + "A", m[1], m[2], m[3], m[4], m[5] + "/asan", m[6] + ".asan", [x + ".asan" for x in m[7]], m[8]))
+        scripts.append(s_)
+    aevs = [e for part in common.run_driver_parallel(["".join(ascripts[i::nproc]) for i in range(nproc)], "asan", timeout=3000) for e in part]
+    bycase.update(common.by_case(aevs))
+    ck.extra["asan_runs"] = len(sel)
     trace = []; owner = []
     for (cid, D, cfg, seg, fdmode, cls, out, sinks, cuts) in meta:
         ce = bycase.get(cid, [])
